@@ -934,9 +934,25 @@ func Gen(r *core.Rng, tier string) ([]core.In[Input], bool) {
 		ins = append(ins, core.In[Input]{Input: in, Stream: "fault"})
 		i++
 	}
+	sess := g.sessions(tier, texts)
 	for _, s := range nasty {
 		ins = append(ins, core.In[Input]{Input: Input{IsRaw: true, Raw: []byte(s)}, Stream: "raw-corpus"})
 	}
 	ins = append(ins, g.rawInputs(nRaw, texts)...)
+	// the sessions are spread evenly over the run (each costs several fresh processes; the workers and the Coq
+	// shards take contiguous chunks of the list)
+	if len(sess) > 0 {
+		merged := make([]core.In[Input], 0, len(ins)+len(sess))
+		k := 0
+		for i, in := range ins {
+			for k < len(sess) && k*len(ins) <= i*len(sess) {
+				merged = append(merged, sess[k])
+				k++
+			}
+			merged = append(merged, in)
+		}
+		merged = append(merged, sess[k:]...)
+		ins = merged
+	}
 	return ins, false
 }
